@@ -244,6 +244,10 @@ func runC16(c C16Case, ev *Evid) (fs []Finding) {
 		case srcBad:
 			add("silent-success", "%s: the source is missing or corrupt but the command reported success", desc)
 			return
+		case c.From > until && (c.Cmd == "view" || c.Cmd == "sum" || c.Cmd == "diff" || c.Cmd == "copy" || c.Cmd == "sum-copy" || c.Cmd == "sum-diff"):
+			// (wherever the two ends lie with respect to the clock and the retentions)
+			add("silent-success", "%s: the window is inverted (from is after until), which every fetch refuses, but the command reported success", desc)
+			return
 		case c.Fault == "corrupt-dest" && c.DestMode != "absent" && (c.Cmd == "diff" || c.Cmd == "copy" || c.Cmd == "sum-copy" || c.Cmd == "sum-diff"):
 			add("silent-success", "%s: the existing destination's header is damaged but the command reported success", desc)
 			return
@@ -490,11 +494,33 @@ func genC16(t *rapid.T) C16Case {
 	for i := 0; i < n; i++ {
 		c.Files = append(c.Files, TreeFile{Dir: "s1", Name: fmt.Sprintf("f%d.wsp", i+1), Spec: genSpec(t, l, now, valDyadic, 10)})
 	}
+	if (c.Cmd == "sum" || c.Cmd == "sum-copy" || c.Cmd == "sum-diff") && rapid.IntRange(0, 11).Draw(t, "manySources") == 0 {
+		// an item with many source files (more than any batch or descriptor budget a reader might use)
+		for i, m := n, rapid.IntRange(50, 150).Draw(t, "sourceCount"); i < m; i++ {
+			c.Files = append(c.Files, TreeFile{Dir: "s1", Name: fmt.Sprintf("g%03d.wsp", i), Spec: c.Files[i%n].Spec})
+		}
+	}
 	c.DestMode = rapid.SampledFrom([]string{"absent", "same", "perturbed"}).Draw(t, "destMode")
 	if c.DestMode == "perturbed" {
 		c.Perturb = genWrites(t, l, now, valDyadic, 10)
 	}
 	c.From, c.Until = genCLIWindow(t, l, now)
+	if rapid.IntRange(0, 9).Draw(t, "invertedWindow") == 0 {
+		// from after until, with the ends anywhere: both recent, both in the future, both older than the finest or
+		// than every retention, or one of each
+		spots := []int64{now - 1, now - l.Archives[0].Step, now + 1, now + 3600, now + l.MaxRet(), now - l.Archives[0].Ret() - 1, now - l.Archives[0].Ret() + 1, now - l.MaxRet() - 1, now - l.MaxRet() - 86400, 1, now}
+		a := rapid.SampledFrom(spots).Draw(t, "invA")
+		b := rapid.SampledFrom(spots).Draw(t, "invB")
+		if a == b {
+			b = a - 1
+		}
+		if a < b {
+			a, b = b, a
+		}
+		if b >= 1 {
+			c.From, c.Until = a, b
+		}
+	}
 	switch r := rapid.IntRange(0, 9).Draw(t, "archiveSel"); {
 	case r < 4:
 		c.ArchiveID = rapid.IntRange(0, len(l.Archives)-1).Draw(t, "archive")
@@ -553,7 +579,7 @@ func TestC16(t *testing.T) {
 	RunProperty(t, Property[C16Case]{
 		NoteCases:   true,
 		ID:          "C16",
-		Rule:        "rapid-generated invocations of all eight subcommands x archive selection (all / each id / out of range) x window (default, narrow, past, future, beyond the finest retention, degenerate) x copy-nan / header / sort / fill x destination absent / identical / perturbed x environment fault (none, text-out below a missing directory, text-out = a directory, text-out = /dev/full, source missing, source corrupt, destination base below a regular file, destination base under /proc, existing destination of another layout, a summed source file of another layout, a matched name that cannot be opened (dangling link), a pattern that matches only directories, read-only destination tree with the command run under the effective uid of 'nobody'), at a controlled clock; plus end-to-end cases in which the built cmd/whispertool binary is run (29 invocations: successes, missing inputs, bad archive ids, unopenable text-out, layout mismatches, existing generate target, unknown subcommand or option, missing required option, invalid option values) and judged by its exit status (0 = did its work, 1 = difference found, 2 = failure with a message on stderr). Each case runs a baseline (no text-out / destination fault) and, for those faults, the faulty run. Oracle: no panic escapes Execute; a nil return of the baseline implies the effect (view/sum: the expected point records; view-raw: all physical slots for the default range; copy/sum-copy: destination holds the source's / the sum's values; diff/sum-diff: no differing slot exists; generate: file with the requested header) and is impossible with an out-of-range archive id or a missing/corrupt source; the faulty run must fail when the text output cannot be opened, when a non-empty output cannot be written, or when the destination cannot be created. Non-trivial: a fault or a non-default selection/window is present. Distinct = hash of the case.",
+		Rule:        "rapid-generated invocations of all eight subcommands x archive selection (all / each id / out of range) x window (default, narrow, past, future, beyond the finest retention, degenerate) x copy-nan / header / sort / fill x destination absent / identical / perturbed x environment fault (none, text-out below a missing directory, text-out = a directory, text-out = /dev/full, source missing, source corrupt, destination base below a regular file, destination base under /proc, existing destination of another layout, a summed source file of another layout, a matched name that cannot be opened (dangling link), a pattern that matches only directories, read-only destination tree with the command run under the effective uid of 'nobody'), at a controlled clock; plus end-to-end cases in which the built cmd/whispertool binary is run (29 invocations: successes, missing inputs, bad archive ids, unopenable text-out, layout mismatches, existing generate target, unknown subcommand or option, missing required option, invalid option values) and judged by its exit status (0 = did its work, 1 = difference found, 2 = failure with a message on stderr). Each case runs a baseline (no text-out / destination fault) and, for those faults, the faulty run. Oracle: no panic escapes Execute; a nil return of the baseline implies the effect (view/sum: the expected point records; view-raw: all physical slots for the default range; copy/sum-copy: destination holds the source's / the sum's values; diff/sum-diff: no differing slot exists; generate: file with the requested header) and is impossible with an out-of-range archive id or a missing/corrupt source; the faulty run must fail when the text output cannot be opened, when a non-empty output cannot be written, or when the destination cannot be created. Inverted windows (from after until, ends anywhere) must be refused by every fetching command; sum-family commands also get items with 50-150 source files. Non-trivial: a fault or a non-default selection/window is present. Distinct = hash of the case.",
 		Assumptions: []string{"checks run as root: permission faults are produced by ENOTDIR / EISDIR / /proc / /dev/full, and by temporarily switching the effective uid to 65534 for the read-only destination"},
 		Gen:         genC16,
 		Run:         runC16,
